@@ -514,3 +514,19 @@ func (p *GoProg) GoVersionAtLeast(major, minor int) bool {
 	}
 	return false
 }
+
+// LocalConstInt returns the value of the integer constant `name` declared inside fd (0 if absent).
+func (p *GoProg) LocalConstInt(fd *ast.FuncDecl, name string) int64 {
+	var out int64
+	ast.Inspect(fd.Body, func(n ast.Node) bool {
+		if id, ok := n.(*ast.Ident); ok && id.Name == name {
+			if c, ok := p.Info.Defs[id].(*types.Const); ok {
+				if v, ok := constant.Int64Val(c.Val()); ok {
+					out = v
+				}
+			}
+		}
+		return true
+	})
+	return out
+}
